@@ -297,3 +297,66 @@ Proof.
   cbn [andb]. rewrite Hc.
   apply frame_payload_bit_flip_rejected_proved.
 Qed.
+
+(* ---- the connection loop ---- *)
+Lemma read_frame_ex_fst enc s : fst (read_frame_ex enc s) = read_frame enc s.
+Proof.
+  unfold read_frame_ex, read_frame, read_magic, read_message.
+  destruct (length s <? 2)%nat; [reflexivity|].
+  destruct (bytes_eqb (firstn 2 s) poison); [reflexivity|].
+  destruct (bytes_eqb (firstn 2 s) magic); cbn [negb]; [|reflexivity].
+  destruct (length (skipn 2 s) <? hdr_len)%nat; [reflexivity|].
+  destruct (decode_header (firstn hdr_len (skipn 2 s))) as [h|]; [|reflexivity].
+  destruct (h_size h =? 0); [reflexivity|].
+  destruct (nlen (skipn hdr_len (skipn 2 s)) <? h_size h); [reflexivity|].
+  destruct (negb enc && negb (crc32 (firstn (N.to_nat (h_size h)) (skipn hdr_len (skipn 2 s))) =? h_crc h));
+    reflexivity.
+Qed.
+
+Definition frame_in_ok (f : header * bytes) : Prop :=
+  method_ok (h_method (fst f)) = true /\ h_crc (fst f) < 2 ^ 32 /\
+  snd f <> [] /\ wf_bytes (snd f) /\ nlen (snd f) < 2 ^ 64.
+
+(* good frames followed by anything the reader does not deliver: exactly the good
+   frames are handed over, in order, once each, and nothing behind the bad frame *)
+Lemma serve_delivers_exactly_prefix_proved enc handle frames : forall bad fuel,
+  Forall (fun f => frame_in_ok f /\ handle (write_header (fst f) (snd f) enc) (snd f) = Accepted) frames ->
+  (forall h p r, read_frame enc bad <> Delivered h p r) ->
+  (length frames < fuel)%nat ->
+  fst (fst (serve fuel enc handle (stream_of enc frames ++ bad))) =
+  map (fun f => (write_header (fst f) (snd f) enc, snd f)) frames.
+Proof.
+  induction frames as [|f frames IH]; intros bad fuel Hok Hbad Hfuel.
+  - destruct fuel as [|fuel]; [simpl in Hfuel; lia|].
+    cbn [stream_of flat_map app serve map].
+    pose proof (read_frame_ex_fst enc bad) as E.
+    destruct (read_frame_ex enc bad) as [v u]. cbn [fst] in E. subst v.
+    destruct (read_frame enc bad) as [h p r| | |] eqn:R; try reflexivity.
+    exfalso. exact (Hbad h p r eq_refl).
+  - inversion Hok as [|? ? [(Hm & Hc & Hne & Hw & Hl) Hacc] Hrest]; subst.
+    destruct fuel as [|fuel]; [simpl in Hfuel; lia|].
+    unfold stream_of. cbn [flat_map]. fold (stream_of enc frames).
+    rewrite <- app_assoc. cbn [serve].
+    pose proof (read_frame_ex_fst enc (write_message (fst f) (snd f) enc ++ stream_of enc frames ++ bad)) as E.
+    rewrite (frame_roundtrip_proved _ _ _ _ Hm Hc Hne Hw Hl) in E.
+    destruct (read_frame_ex enc (write_message (fst f) (snd f) enc ++ stream_of enc frames ++ bad)) as [v u].
+    cbn [fst] in E. subst v. rewrite Hacc.
+    specialize (IH bad fuel Hrest Hbad ltac:(simpl in Hfuel; lia)).
+    destruct (serve fuel enc handle (stream_of enc frames ++ bad)) as [[d u'] a].
+    cbn [fst] in *. cbn [map]. rewrite IH. reflexivity.
+Qed.
+
+(* a frame the reader does not deliver ends the loop at once *)
+Lemma serve_stops_at_bad_proved enc handle s fuel :
+  (forall h p r, read_frame enc s <> Delivered h p r) ->
+  fst (fst (serve fuel enc handle s)) = [].
+Proof.
+  intros Hbad. destruct fuel as [|fuel]; [reflexivity|]. cbn [serve].
+  pose proof (read_frame_ex_fst enc s) as E.
+  destruct (read_frame_ex enc s) as [v u]. cbn [fst] in E. subst v.
+  destruct (read_frame enc s) as [h p r| | |] eqn:R; try reflexivity.
+  exfalso. exact (Hbad h p r eq_refl).
+Qed.
+
+Lemma serve_conn_then_close_proved : serve_conn_then_close = true.
+Proof. reflexivity. Qed.
